@@ -22,7 +22,7 @@ PLAN = dict(
         quick=[det("rel", H, "cs-rel", 16, 320, 4, tso=True, time_cap=22),
                det("dbg", H, "cs-dbg", 16, 200, 4, tso=True, time_cap=16),
                cmd("seq", RC, "plain", 1, ["150"], link_tbb=False, ldflags=["-lrapidcheck"]),
-               tsan("C06", 4, 80)],
+               tsan("C06", 8, 240)],
         thorough=[det("rel", H, "cs-rel", 16, 7000, 5, tso=True, time_cap=330),
                   det("dbg", H, "cs-dbg", 16, 3400, 5, tso=True, time_cap=200),
                   cmd("seq", RC, "plain", 4, ["3000"], link_tbb=False, ldflags=["-lrapidcheck"]),
